@@ -103,6 +103,44 @@ def tree_lines(ctx, label, sizes=True):
             M = gen.corrupt(rng, M, (0, 1))
         for c, entry, MM in cfgs_for(M, True)[:1]:
             lines.append("%s %d %s %s" % (gen.cfg_line(c), entry, mat_line(MM), script()))
+    # 2-sums (and 2-sums of 2-sums) of pieces that are neither graphic nor cographic — pivoted ternary presentations of
+    # Camion-signed R10 / R12 / 3-sum matroids (signed by the library itself) and network pieces: the direct graphicness
+    # tests fail, so the 2-separations are found while the sequence of nested minors is extended, after pivots
+    deep = gen.library_signed(ctx.drive("rel"), gen.deep_binary_seeds(rng, 14 if q else 120, 90))
+    for _ in range(2600 if q else 60000):
+        if not deep:
+            break
+        P = [gen.pivoted_presentation(rng, [r[:] for r in rng.choice(deep)], rng.below(3)) for _ in range(2 + rng.below(2))]
+        if rng.below(3) == 0:
+            P[rng.below(len(P))] = gen.network_matrix(rng, 4 + rng.below(5), 3 + rng.below(5))
+        M = P[0]
+        for B in P[1:]:
+            ra = rng.choice([i for i in range(len(M)) if any(M[i])] or [0])
+            cb = rng.choice([j for j in range(len(B[0])) if any(B[i][j] for i in range(len(B)))] or [0])
+            M = gen.two_sum(M, B, ra, cb)
+        if len(M) * len(M[0]) > 700:
+            continue
+        for _ in range(rng.below(3)):
+            nz = [(i, j) for i in range(len(M)) for j in range(len(M[0])) if M[i][j] != 0]
+            r, c = rng.choice(nz)
+            M = gen.ternary_pivot(M, r, c)
+        M = gen.permute(rng, M)
+        c = gen.rand_cfg(rng, algorithm=0, stopflags=rng.below(5) == 0, wantSub=0)
+        c[13], c[14] = rng.below(2), 0
+        c[16] = 1
+        lines.append("%s 0 %s %s" % (gen.cfg_line(c), mat_line(M), "0"))
+    # 2-sums of network matrices with the direct graphicness test switched off: the node is not recognized at once, gets a
+    # sequence of nested minors, and its 2-separation is found while that sequence is extended (after pivots of the dense
+    # working matrix) - a path of the decomposition the default parameters almost never take
+    for _ in range(4000 if q else 80000):
+        A = gen.network_matrix(rng, 5 + rng.below(6), 5 + rng.below(8))
+        B = gen.network_matrix(rng, 5 + rng.below(6), 5 + rng.below(8))
+        M = gen.permute(rng, gen.two_sum(A, B, rng.below(len(A)), rng.below(len(B[0]))))
+        if rng.below(6) == 0:
+            M = gen.corrupt(rng, M)
+        c = gen.rand_cfg(rng, algorithm=0, stopflags=False, wantSub=0)
+        c[1], c[4], c[8], c[10], c[16] = 1, 0, 1, 0, 1
+        lines.append("%s 0 %s 0" % (gen.cfg_line(c), mat_line(M)))
     return lines
 
 
